@@ -292,7 +292,7 @@ def run_case(case):
                     data["w"][coef] = {"+": g(dof_locations(xdp)), "-": g(dof_locations(xdm))}
                 try:
                     R, S, _ = orc.tensor("interior_facet", -1, data, (fp, fm), (pp, pm))
-                    e2, bnd, st = H.compare(A, R, S, "float64", 0.0, ops=32)
+                    e2, bnd, st = H.compare(A, R, S, "float64", getattr(comp, "table_delta", 0.0), ops=32, floor=0.1)
                     if st == "bad":
                         viol("value-mismatch", f"numbering {sp},{sm} codes ({pp},{pm}): kernel differs from the oracle by {e2:.3e}")
                     elif st == "ok":
